@@ -276,6 +276,59 @@ def preloads_reused_over_three_inversions(mask, data, noise, kernel, objects, di
     return None
 
 
+def _gen_reuse_pieces(rng, tier):
+    k = 0
+    for rep in range(gens.budget(tier, 10, 120)):
+        for order in ["m", "mm", "mf", "fm", "mfm", "d", "df"]:
+            case = base_case(rng, "signed-square" if rep % 4 == 3 else "nonneg-square", order, k)
+            k += 1
+            for use_w in (True, False):
+                pool = PIECES if use_w else PIECES     # data_vector_mapper included in both formalisms
+                bits = (2 ** len(pool) - 1) if rep == 0 else (rng.randrange(2 ** len(pool)) | 1)       # data_vector_mapper always preloaded
+                names = [s for i, s in enumerate(pool) if (bits >> i) & 1]
+                if "f" not in order:
+                    names = [n for n in names if "linear_func" not in n]
+                c = dict(case)
+                c["use_w_tilde"] = use_w
+                c["slots"] = names
+                c["same_dataset"] = bool(rep % 2)
+                yield c
+
+
+@bounded("C15", "preload-pieces-reused-over-three-inversions", gen=_gen_reuse_pieces,
+         nontrivial=lambda mask, data, noise, kernel, objects, diag, use_w_tilde, slots, same_dataset: len(slots) > 1)
+@guarded
+def preload_pieces_reused_over_three_inversions(mask, data, noise, kernel, objects, diag, use_w_tilde, slots, same_dataset):
+    """C15: 'Reusing one set of preloads for any number of successive inversions on the same inputs gives the identical outcome
+    every time' -- one Preloads object holding the per-mapper pieces (data_vector_mapper always, the other inversion slots
+    varied), 3 successive inversions, each solved (reconstruction, mapped data, evidence terms read) before the next is built;
+    every output compared with the fresh computation and with the first use -- a solver or assembly step that writes into an
+    array it was handed shows as a different second outcome; 7 mixes x both formalisms x 10 (120) datasets."""
+    import autoarray as aa
+    _, ref = run(aa, mask, data, noise, kernel, objects, diag, use_w_tilde)
+    try:
+        vals = source_values(aa, mask, data, noise, kernel, objects, diag, use_w_tilde, slots)
+    except IndexError:
+        return None                      # see _pieces_check: no preloadable value exists for this mix
+    if any(v is None for v in vals.values()):
+        return None
+    pre = aa.Preloads(**vals)
+    ds_mk = make_dataset(aa, mask, data, noise, kernel) if same_dataset else None
+    first = None
+    for i in range(3):
+        inv, got = run(aa, mask, data, noise, kernel, objects, diag, use_w_tilde, preloads=pre, ds_mk=ds_mk)
+        msg = compare(ref, got, "inversion %d sharing one Preloads %r, use_w_tilde=%s" % (i + 1, slots, use_w_tilde))
+        if msg:
+            return msg
+        if first is None:
+            first = got
+        else:
+            msg = compare(first, got, "inversion %d vs inversion 1 sharing one Preloads %r" % (i + 1, slots), tol=1e-12)
+            if msg:
+                return msg
+    return None
+
+
 def _gen_factory(regimes):
     def gen(rng, tier):
         k = 0
